@@ -22,17 +22,17 @@ C['C12'] = dict(cat='exploration', tech=BE,
     text="All short regexes over a delimiter-heavy alphabet x invert x option values, each run end to end (GrepClient -> wire encoding -> ServerHandler -> reader) and compared with the pattern compiled and applied directly.",
     ref="DESIGN.md 3.3, 4 (C12)")
 C['C13'] = dict(cat='model_checking', tech=MC,
-    text="All schedules within a deviation bound (quick d<=2, thorough d<=3) of 2-3 real ServerHandler sessions sharing one real limiter channel, cat and tail, with cancellation at any point; invariant on every state: distinct open test files <= limit; end state: every non-cancelled read delivered, limiter empty.",
+    text="All schedules within a deviation bound (quick d<=2, thorough d<=3) of 2-3 real ServerHandler sessions sharing one real limiter channel, cat, tail and map+cat, with cancellation at any point; invariant on every state: distinct open test files <= limit; end state: every non-cancelled read delivered, limiter empty.",
     ref="DESIGN.md 3.1, 3.2, 4 (C13)")
 C['C16'] = dict(cat='exploration', tech=BE,
-    text="Exhaustive enumeration of server byte streams (all messages of <=4/<=5 tokens over a 20-token alphabet, record prefixes, split writes) through the three real client handlers in both colour modes; oracle: no panic, strip(coloured)==strip(uncoloured).",
+    text="Exhaustive enumeration of server byte streams (all messages of <=4/<=5 tokens over a 20-token alphabet, record prefixes, split writes) through the three real client handlers in both colour modes; oracle: no panic, strip(coloured)==strip(uncoloured); part 2: free-running -race pass of concurrent handlers in colour mode (any data race in the property's packages is a violation).",
     ref="DESIGN.md 3.3, 4 (C16)")
 C['C18'] = dict(cat='model_checking', tech="explicit exhaustive exploration of every random-number answer sequence of the shuffle (environment choice points owned by the explorer) for every server list up to length 5/6, on the real discovery code",
     text="All server lists up to length 5 (quick) / 6 (thorough) over 4 entries, as comma list, server file and discovery module with 5 filters; every outcome of every random draw of the shuffle is explored (complete tree); oracle: returned multiset == distinct matching entries.",
     ref="DESIGN.md 3.3, 4 (C18)")
 
 C['C01'] = dict(cat='exploration', tech=BE,
-    text="Every file content of <=3/<=4 tokens over 16 byte tokens (0x00, the wire delimiter 0xAC alone and inside UTF-8 characters, 0xFF, leading '.', '|', ';', CR, runs around MaxLineLength), gzip/zstd encodings, and a long-line family around MaxLineLength and the 32 KiB transport buffer, each run through the real dcat main body (serverless, controlled scheduler, incl. reads slow enough to span dtail's timers) and compared byte for byte with the statement's reference (newline inserted after every MaxLineLength non-newline bytes); part 2 fetches all contents of <=3/<=4 tokens and over-long lines through a real in-process dtail server over SSH (native build).",
+    text="Every file content of <=3/<=4 tokens over 16 byte tokens (0x00, the wire delimiter 0xAC alone and inside UTF-8 characters, 0xFF, leading '.', '|', ';', CR, runs around MaxLineLength), gzip/zstd encodings, and a long-line family around MaxLineLength and the 32 KiB transport buffer, each run through the real dcat main body (serverless, controlled scheduler, incl. reads slow enough to span dtail's timers, a grid of disk and transport speeds for consecutive over-long lines, and one over-long-line scenario under all schedules within one deviation) and compared byte for byte with the statement's reference (newline inserted after every MaxLineLength non-newline bytes); part 2 fetches all contents of <=3/<=4 tokens and over-long lines through a real in-process dtail server over SSH (native build).",
     ref="DESIGN.md 3.3, 4 (C01)")
 C['C02'] = dict(cat='model_checking', tech=MC,
     text="All schedules within a deviation bound (quick d<=2, thorough d<=2 on a larger scenario set; deviations = preemption, non-first ready select case, goroutine demotion) of complete dcat/dgrep sessions (real client main body, serverless connector, server handler, readers, client handler) over 1-3 files, with queueing behind the cat limit and consumer stalls of 50 ms..6 s; oracle: per file exactly its selected lines once and in order, exit status 0, termination.",
@@ -44,7 +44,7 @@ C['C05'] = dict(cat='exploration', tech=BE + "; differential oracle (partitioned
     text="Every table of <=2/<=3 log lines over 6-8 shapes per format x every assignment of lines to (server, file, interval) cells x ~150 queries, through the real server aggregator, client mapr handler, global group set and CSV writer; result must equal the central evaluation.",
     ref="DESIGN.md 3.3, 4 (C05)")
 C['C07'] = dict(cat='model_checking', tech=MC,
-    text="All schedules within a deviation bound (quick d<=1, thorough d<=2) of a non-plain dcat session over 1-3 in-process servers x 1-2 files x 1-2 lines (plus 40000/70000-byte lines spanning several transport reads), the stdout logger's lock included as branching point; oracle: every output line is one whole correctly attributed REMOTE record, per source gap-free increasing line numbers.",
+    text="All schedules within a deviation bound (quick d<=1, thorough d<=2) of a non-plain dcat session over 1-3 in-process servers x 1-2 files x 1-2 lines (plus 40000/70000-byte lines spanning several transport reads), the stdout logger's lock included as branching point; oracle: every output line is one whole correctly attributed REMOTE record, per source gap-free increasing line numbers; part 2: free-running -race pass of six concurrent real sessions against one real server.",
     ref="DESIGN.md 3.1, 3.2, 4 (C07)")
 
 C['C06'] = dict(cat='model_checking', tech=MC,
